@@ -9,7 +9,7 @@ from quantity.term import Term
 import quantity.predefined as pre  # noqa: F401
 from quantity.money import ExchangeRate, Money
 
-from .. import cat, gen, refdata
+from .. import cat, gen, refdata, universe
 from ..model import F, dec_places, exact, fs, is_dec_repr, mknum
 from ..runner import Part
 
@@ -130,6 +130,7 @@ def parts(tier):
         Part("money", "hyp", strategy=gen_money(), n=40000 if big else 2000),
         Part("term", "hyp", strategy=gen_term(), n=200000 if big else 10000),
         Part("rate", "hyp", strategy=gen_rate(), n=100000 if big else 5000),
+        Part("universe", "hyp", strategy=universe.gen_linear_case(n_max=3), n=100000 if big else 5000, chunk=1500),
     ]
 
 
@@ -169,6 +170,22 @@ def _mkterm(items):
 def run_case(case, ctx):
     k = case["k"]
     ctx.label(k)
+    if k == "u_lin":
+        built = universe.build_linear_case(case, ctx)
+        if built is None:
+            return
+        qs, refs, mus, _ = built
+        for i in range(len(qs)):
+            for j in range(i + 1, len(qs)):
+                a, b = qs[i], qs[j]
+                tag = "quantity/cross-unit" if a.unit is not b.unit else "quantity/same-unit"
+                r = _check_pair(ctx, "u_" + tag, a, b, a.unit is not b.unit or type(a.amount) is not type(b.amount))
+                if r is not None and r is not (refs[i] == refs[j]):
+                    ctx.viol("u_quantity/eq_vs_value", f"{a!r} == {b!r} is {r}; reference values {fs(refs[i])}, "
+                             f"{fs(refs[j])} [{mus[i].how},{mus[j].how}]")
+                if a.unit is not b.unit and mus[i].factor == mus[j].factor:
+                    _check_pair(ctx, "unit/same-scale", a.unit, b.unit, True)
+        return
     if k == "qty":
         a = Quantity(mknum(case["a"]["amt"]), cat.unit(case["a"]["u"]))
         b = Quantity(mknum(case["b"]["amt"]), cat.unit(case["b"]["u"]))
